@@ -37,6 +37,8 @@ type rdType struct {
 	Kind   string    `json:"kind"`
 	Doc    []string  `json:"doc,omitempty"`
 	Fields []rdField `json:"fields,omitempty"`
+	// OpenCmt: a comment behind "struct {" (it documents nothing, in particular not the first field)
+	OpenCmt string `json:"opencmt,omitempty"`
 }
 
 type rdPkg struct {
@@ -120,6 +122,9 @@ func genRDPkg(t *rapid.T, idx int) rdPkg {
 			ty.Kind = "iface"
 		}
 		if ty.Kind == "struct" || ty.Kind == "generic" {
+			if rapid.IntRange(0, 4).Draw(t, "opencmt") == 0 {
+				ty.OpenCmt = rapid.SampledFrom([]string{"keep in sync with the accounts table", "+gengo:x", "fields"}).Draw(t, "opencmttext")
+			}
 			nf := rapid.IntRange(1, 4).Draw(t, "nfields")
 			hasExported := false
 			for j := 0; j < nf; j++ {
@@ -194,6 +199,17 @@ func genRDPkg(t *rapid.T, idx int) rdPkg {
 				fieldN++
 				ty.Fields = append(ty.Fields, rdField{Name: fmt.Sprintf("F%d", fieldN), Type: "int", Listed: true, Doc: genDoc(t, "x", false)})
 			}
+			if ty.Kind == "struct" && len(opaque) > 0 && rapid.IntRange(0, 3).Draw(t, "opaquefirst") == 0 {
+				// a struct without exported field embedded ahead of everything else (by value or by pointer)
+				o := rapid.SampledFrom(opaque).Draw(t, "opaqueembed")
+				dup := false
+				for _, other := range ty.Fields {
+					dup = dup || other.Embed == o
+				}
+				if !dup {
+					ty.Fields = append([]rdField{{Embed: o, Ptr: rapid.IntRange(0, 2).Draw(t, "opaqueptr") == 0}}, ty.Fields...)
+				}
+			}
 			if ty.Kind == "struct" {
 				embeddable = append(embeddable, name)
 			}
@@ -208,6 +224,7 @@ func genRDPkg(t *rapid.T, idx int) rdPkg {
 				fieldN++
 				ty.Fields = []rdField{{Name: fmt.Sprintf("f%d", fieldN), Type: "int"}}
 				opaque = append(opaque, name)
+				embeddable = append(embeddable, name) // may be embedded ahead of a covered struct: delegation must go on to the later one
 			}
 		}
 		p.Types = append(p.Types, ty)
@@ -258,7 +275,11 @@ func (p rdPkg) source() string {
 			if ty.Kind == "generic" {
 				tp = "[T any]"
 			}
-			fmt.Fprintf(b, "type %s%s struct {\n", ty.Name, tp)
+			if ty.OpenCmt != "" {
+				fmt.Fprintf(b, "type %s%s struct { // %s\n", ty.Name, tp, ty.OpenCmt)
+			} else {
+				fmt.Fprintf(b, "type %s%s struct {\n", ty.Name, tp)
+			}
 			for _, f := range ty.Fields {
 				writeDoc(b, "\t", f.Doc)
 				if f.Embed != "" {
